@@ -87,8 +87,14 @@ def sized_octets(draw: t.Any, sizes: t.Sequence[int]) -> bytes:
     return b
 
 
+# single values that code tends to special-case
+MAGIC_OCTETS = [b"*", b"**", b"\\2a", b"(", b")", b"\\", b"\x00", b" ", b"=", b"0", b"1", b"TRUE", b"FALSE", b"\xff", b"1.1", b"dn", b"-"]
+ATTRIBUTE_NAMES = ["cn", "objectClass", "userCertificate;binary", "cACertificate;BINARY", "cn;lang-en", "member;range=0-1499", "member;range=0-*",
+                   "description;lang-ja;phonetic", "2.5.4.3;binary", "jpegPhoto", "*", "+", "1.1", "dn", "binary", ";binary", "x;x-y;binary"]
+
+
 def octets(big: bool = False) -> st.SearchStrategy[bytes]:
-    parts = [small_octets(), small_octets(), small_octets(), sized_octets(BOUNDARY_SIZES)]
+    parts = [small_octets(), small_octets(), small_octets(), sized_octets(BOUNDARY_SIZES), st.sampled_from(MAGIC_OCTETS)]
     if big:
         parts.append(sized_octets(BIG_SIZES))
     return st.one_of(*parts)
@@ -219,7 +225,7 @@ def filters(
     rfc_text_domain=True restricts to trees that have an RFC 4515 text form: non-empty and/or sets,
     substring filters with >= 1 component and no empty component, extensible match with a rule or an
     attribute, matching rule never the bare word 'dn' unless the DN flag is on."""
-    A = attrs if attrs is not None else text()
+    A = attrs if attrs is not None else st.one_of(text(), text(), st.sampled_from(ATTRIBUTE_NAMES))
     V = values if values is not None else octets()
     R = rules if rules is not None else (matching_rule() if rfc_text_domain else text())
     if rfc_text_domain:
@@ -393,11 +399,12 @@ def message(kinds: t.Optional[t.Sequence[str]] = None, big: bool = False, filt: 
             time=st.one_of(st.just(0), nonneg_ints(), ints()),
             typesOnly=st.booleans(),
             filter=F,
-            attributes=_long(st.sampled_from(["cn", "*", "1.1", "objectClass"]), st.lists(text(), max_size=4)),
+            attributes=_long(st.sampled_from(["cn", "*", "1.1", "objectClass"]), st.lists(st.one_of(text(), st.sampled_from(ATTRIBUTE_NAMES)), max_size=4)),
         ),
         "searchResEntry": dict(name=T, attributes=_long(
             st.tuples(st.sampled_from(["cn", "member"]), st.lists(small_octets(4), max_size=2)),
-            st.lists(st.tuples(text(), st.one_of(st.lists(O, max_size=3), st.lists(O, max_size=3), st.just([b"v"] * 200), st.just([b"dup", b"dup"]))), max_size=4))),
+            st.lists(st.tuples(st.one_of(text(), text(), st.sampled_from(ATTRIBUTE_NAMES)),
+                               st.one_of(st.lists(O, max_size=3), st.lists(O, max_size=3), st.just([b"v"] * 200), st.just([b"dup", b"dup"]))), max_size=4))),
         "searchResDone": dict(result=results(big)),
         "searchResRef": dict(uris=_long(st.sampled_from(["ldap://a/dc=x", ""]), st.lists(text(), max_size=4))),
         "extendedReq": dict(name=st.one_of(text(), text(), st.sampled_from(known_oids())), value=st.none() | O),
